@@ -69,7 +69,7 @@ def run(ctx):
     n_deep = len(hists) - n_edges
     log("histories: %d model edges, %d simulated" % (n_edges, n_deep))
     drv = ctx.build("c02")
-    shards = shard(hists, 16 if quick else 64)
+    shards = shard(hists, 8 if quick else 48)
     argvs, traces = [], []
     for k, part in enumerate(shards):
         sp = os.path.join(ctx.scratch, "script%d.json" % k)
